@@ -96,7 +96,7 @@ def unit_rawdata(tier, reuse, size):
         sched = r.state.aux.get('sched', ()); scheds.add((sched, r.kind))
         tag = '/'.join(sched) or 'no allocation'
         bad = r.state.aux.get('badfree', ())
-        ck.prove('schedule [%s]: every free releases a live heap block exactly once' % tag, r.state.pc, z3.BoolVal(not bad), site='mj_makeRawData:free', decode=lambda m_, b=bad: {'bad': list(b)})
+        ck.prove('schedule [%s]: every free releases a live heap block exactly once' % tag, r.state.pc, z3.BoolVal(not bad), site='mj_makeRawData:free', decode=lambda m_, b=bad: {'bad': list(b)}, replay=leak_replay(reuse, size, sched, want='free'))
         failed = 'fail' in sched
         ck.prove('schedule [%s]: an allocation failure surfaces through mju_error, success returns normally' % tag, r.state.pc, z3.BoolVal((r.kind == 'error') == failed), site='mj_makeRawData:reported',
                  decode=lambda m_, k=r.kind, inf=r.info: {'ended': k, 'info': str(inf)[:200]})
@@ -118,7 +118,7 @@ def unit_rawdata(tier, reuse, size):
     return ck
 
 
-def leak_replay(reuse, size, sched):
+def leak_replay(reuse, size, sched, want='leak'):
     """native confirmation with the public allocator hooks: mju_user_malloc fails according to the schedule, mju_user_error unwinds by longjmp; blocks still allocated afterwards and not owned by the caller are leaked"""
     def rp(model, witness):
         so = native()
@@ -129,7 +129,7 @@ def leak_replay(reuse, size, sched):
             fail_at = list(sched).index('fail') if 'fail' in sched else -1
             return lib.vf_c21_run(int(reuse), int(size), fail_at)
         r = W.run_child(child, timeout=30)
-        return (r[0] == 'ok' and r[1] > 0), {'native': str(r)[:100], 'meaning': 'number of blocks allocated during the call that are neither freed nor reachable from the caller after the error handler unwound', 'schedule': list(sched)}
+        return (r[0] == 'ok' and (r[1] % 100 if want == 'leak' else r[1] // 100) > 0), {'native': str(r)[:100], 'meaning': 'native result = leaked blocks + 100 * frees of a pointer that is not a live block (double free / foreign pointer)', 'schedule': list(sched)}
     return rp
 
 
@@ -141,9 +141,9 @@ NATIVE_C = r'''
 #include <mujoco/mjdata.h>
 #include <mujoco/mjxmacro.h>
 extern void* (*mju_user_malloc)(size_t); extern void (*mju_user_free)(void*); extern void (*mju_user_error)(const char*);
-static jmp_buf vf21_jb; static int vf21_calls, vf21_fail_at; static void* vf21_blocks[16]; static int vf21_nb;
+static jmp_buf vf21_jb; static int vf21_calls, vf21_fail_at, vf21_bad; static void* vf21_blocks[16]; static int vf21_nb;
 static void* vf_m(size_t n) { if (vf21_calls++ == vf21_fail_at) return 0; void* p = malloc(n ? n : 1); vf21_blocks[vf21_nb++] = p; return p; }
-static void vf_f(void* p) { for (int i = 0; i < vf21_nb; i++) if (vf21_blocks[i] == p) vf21_blocks[i] = 0; free(p); }
+static void vf_f(void* p) { for (int i = 0; i < vf21_nb; i++) if (vf21_blocks[i] == p) { vf21_blocks[i] = 0; free(p); return; } vf21_bad++; /* not a live block: double free or foreign pointer */ }
 static void vf_e(const char* msg) { longjmp(vf21_jb, 1); }
 void mj_makeRawData(mjData** dest, const mjModel* m);
 int vf_c21_run(int reuse, int size, int fail_at) {
@@ -153,13 +153,13 @@ int vf_c21_run(int reuse, int size, int fail_at) {
 #undef X
   m.nplugin = 0; m.narena = 1024;
   mjData* d = 0; static mjData old;
-  if (reuse) { memset(&old, 0, sizeof(old)); old.buffer = malloc(64); old.arena = malloc(64); d = &old; }
-  mju_user_malloc = vf_m; mju_user_free = vf_f; mju_user_error = vf_e; vf21_calls = 0; vf21_nb = 0; vf21_fail_at = fail_at;
-  if (reuse) { mju_user_free = 0; }
+  mju_user_malloc = vf_m; mju_user_free = vf_f; mju_user_error = vf_e; vf21_calls = 0; vf21_nb = 0; vf21_bad = 0; vf21_fail_at = -1;
+  if (reuse) { memset(&old, 0, sizeof(old)); old.buffer = vf_m(64); old.arena = vf_m(64); d = &old; }
+  int nold = vf21_nb; vf21_calls = 0; vf21_fail_at = fail_at;
   int leaked = 0;
-  if (!setjmp(vf21_jb)) { mj_makeRawData(&d, &m); return 0; }
-  for (int i = 0; i < vf21_nb; i++) if (vf21_blocks[i] && !(d && (d == vf21_blocks[i] || d->buffer == vf21_blocks[i] || d->arena == vf21_blocks[i]))) leaked++;
-  return leaked;
+  if (!setjmp(vf21_jb)) { mj_makeRawData(&d, &m); return 100 * vf21_bad; }
+  for (int i = nold; i < vf21_nb; i++) if (vf21_blocks[i] && !(d && (d == vf21_blocks[i] || d->buffer == vf21_blocks[i] || d->arena == vf21_blocks[i]))) leaked++;
+  return leaked + 100 * vf21_bad;
 }
 '''
 
